@@ -495,7 +495,7 @@ pub fn build(quick: bool) -> Check {
         bounds: json!({"types": 12, "columns": 12}),
         exhaustive: true,
         caps_hit: vec![],
-        families: if quick { vec![Box::new(Matrix { tys: types() }), Box::new(ThroughRows), Box::new(super::c07::MixedRows), Box::new(super::aftermath::Aftermath { prop: "C15" }), Box::new(BinSeamHistories::new()), Box::new(super::context::ContextWalks { prop: "C15", depth: 2, start_bin: true }), Box::new(super::context::ContextWalks { prop: "C15", depth: 3, start_bin: true })] } else { vec![Box::new(Matrix { tys: types() }), Box::new(ThroughRows), Box::new(Exhaustive32), Box::new(super::c07::MixedRows), Box::new(super::aftermath::Aftermath { prop: "C15" }), Box::new(BinSeamHistories::new()), Box::new(super::context::ContextWalks { prop: "C15", depth: 2, start_bin: true }), Box::new(super::context::ContextWalks { prop: "C15", depth: 3, start_bin: true })] },
+        families: if quick { vec![Box::new(Matrix { tys: types() }), Box::new(ThroughRows), Box::new(super::c07::MixedRows), Box::new(super::aftermath::Aftermath { prop: "C15" }), Box::new(BinSeamHistories::new()), Box::new(super::context::BoundaryCells { prop: "C15", bin: true }), Box::new(super::context::ContextWalks { prop: "C15", depth: 2, start_bin: true }), Box::new(super::context::ContextWalks { prop: "C15", depth: 3, start_bin: true })] } else { vec![Box::new(Matrix { tys: types() }), Box::new(ThroughRows), Box::new(Exhaustive32), Box::new(super::c07::MixedRows), Box::new(super::aftermath::Aftermath { prop: "C15" }), Box::new(BinSeamHistories::new()), Box::new(super::context::BoundaryCells { prop: "C15", bin: true }), Box::new(super::context::ContextWalks { prop: "C15", depth: 2, start_bin: true }), Box::new(super::context::ContextWalks { prop: "C15", depth: 3, start_bin: true })] },
         required: vec!["seam_histories", "context_walks", "columns_with_other_flags", "mixed_rows", "aftermath_recovered", "accepted", "refused", "rows_accepted", "rows_refused"],
     }
 }
